@@ -373,6 +373,21 @@ def rule_r1(ctx):
             rr.ok(what, nontrivial=False)
         else:
             rr.ok(what, sample={"rule": "C10-R1", "site": f"{fi.module.rel}:{node.lineno}", "write": target, "location": cls_, "why": reason})
+    # the public entry point never writes through its parameters: the options object (and anything
+    # else the caller passes) belongs to the caller and is used for later calls
+    root_fq = "oneliner:convert_code_string"
+    rr.instances += 1
+    written = sorted(p for p in eff.param_writes.get(root_fq, set()) if p != "self")
+    what = "convert_code_string|arguments-not-written"
+    if written:
+        sites = [f"{fi.module.rel}:{node.lineno} `{ast.unparse(node)[:50]}`" for fi, node, target, cls_, reason in results if fi.fq == root_fq and cls_.startswith("param:")]
+        rr.fail(
+            f"C10-R1|convert_code_string|writes-argument|{written[0]}",
+            f"convert_code_string writes to the object passed as `{written[0]}` ({'; '.join(sites[:2]) or 'through a callee'}): the caller's options object is changed by a conversion, so a later conversion with the same object gives a different result",
+            what=what,
+        )
+    else:
+        rr.ok(what, sample={"rule": "C10-R1", "entry": root_fq, "verdict": "no write through a parameter (directly or in a callee)"})
     # descriptor protocol: __get__ must read what __set__ writes
     for ci in ctx.prog.all_classes():
         if "__get__" in ci.methods and "__set__" in ci.methods:
